@@ -145,6 +145,10 @@ class Tr:
         if e[0] == "mcall" and e[1][0] == "field" and e[1][1][0] == "path" and len(e[1][1][1]) == 1 and \
                 ("mcall", f"{e[1][1][1][0]}.{e[1][2]}", e[2]) in self.tb.effects:
             return self.tb.effects[("mcall", f"{e[1][1][1][0]}.{e[1][2]}", e[2])].get("ret")
+        if e[0] == "mcall" and e[1][0] == "path" and len(e[1][1]) == 1 and ("mcall", e[1][1][0], e[2]) in self.tb.effects:
+            return self.tb.effects[("mcall", e[1][1][0], e[2])].get("ret")
+        if e[0] == "try":
+            return getattr(self.tb, "rettags", {}).get(f"try:{self.tag_of(e[1])}")
         if e[0] == "mcall":
             t = self.tag_of(e[1])
             spec = self.tb.methods.get((t, e[2])) or self.tb.methods.get((None, e[2]))
